@@ -57,6 +57,8 @@ def gen_data(r: random.Random) -> dict[str, Any]:
         d["n"] = r.choice([0, 1, 2, 3, 5])
     if r.random() < 0.8:
         d["d"] = {kk: gen_scalar(r) for kk in r.sample(KEYS, r.choice([0, 1, 2, 3]))}
+    if r.random() < 0.8:
+        d["s"] = r.choice(SCALAR_STRS)
     return d
 
 
@@ -137,7 +139,20 @@ def gen_bool(r: random.Random, scope: list[str], depth: int = 2) -> tuple:
     if depth <= 0 or k < 0.3:
         return gen_primitive(r, scope)
     if k < 0.7:
-        return ("cmp", r.choice(CMPOPS), gen_primitive(r, scope), gen_primitive(r, scope))
+        op = r.choice(CMPOPS)
+        if op in ("<", ">", "<=", ">=") and r.random() < 0.8:
+            # mostly well-typed orderings
+            if r.random() < 0.6:
+                pick = lambda: r.choice([("lit", r.choice([0, 1, 2, 3])), ("path", "n", []),
+                                         ("path", "xs", [("key", "size")])])
+            else:
+                pick = lambda: r.choice([("lit", r.choice(["a", "b", "hello"])), ("path", "s", [])])
+            return ("cmp", op, pick(), pick())
+        if op in ("contains", "in") and r.random() < 0.7:
+            hay = r.choice([("path", "xs", []), ("path", "s", []), ("lit", "hello"), ("path", "d", [])])
+            ndl = gen_lit(r) if r.random() < 0.6 else gen_path(r, scope, 1)
+            return ("cmp", op, hay, ndl) if op == "contains" else ("cmp", op, ndl, hay)
+        return ("cmp", op, gen_primitive(r, scope), gen_primitive(r, scope))
     if k < 0.8:
         return ("not", gen_bool(r, scope, depth - 1))
     if k < 0.9:
